@@ -71,6 +71,9 @@ func loadProgram(repo string, pkgPaths []string, extDirs []string, gowork string
 		}
 	})
 	for fn := range ssautil.AllFunctions(prog) {
+		if old, dup := p.funcs[fn.String()]; dup && os.Getenv("GOVC_DEBUG") != "" {
+			fmt.Fprintf(os.Stderr, "duplicate function name %s: %s and %s\n", fn.String(), p.fset.Position(old.Pos()), p.fset.Position(fn.Pos()))
+		}
 		p.funcs[fn.String()] = fn
 	}
 	// contract files of every loaded repository package
@@ -277,7 +280,7 @@ func (p *Prog) verifyFunction(fn *ssa.Function, spec *FuncSpec) *FuncResult {
 		vc.emit("(declare-const %s %s)", c, vc.sortOf(prm.Type()))
 		v := &Val{T: c, Ty: prm.Type()}
 		vc.valueFacts(c, prm.Type())
-		if i == 0 && sig.Recv() != nil {
+		if i == 0 && sig.Recv() != nil && !spec.NilRecv {
 			if _, isPtr := prm.Type().Underlying().(*types.Pointer); isPtr {
 				vc.assume(fmt.Sprintf("(and (> %s 0) (< %s alloc@0))", c, c))
 				vc.used.Assumes["method receivers are non-nil allocated objects"] = true
@@ -341,7 +344,7 @@ func (p *Prog) verifyFunction(fn *ssa.Function, spec *FuncSpec) *FuncResult {
 	vc.modHeap = spec.ModHeap
 	vc.modLocs = vc.evalModifies(spec, env)
 	vc.checkFrame = true
-	rnames := vc.resultNames(spec, sig)
+	rnames := vc.resultNames(spec, nameSig(fn))
 	nret := 0
 	fr.onReturn = func(fr *Frame, results []*Val, pos token.Pos) {
 		nret++
@@ -408,8 +411,8 @@ func (vc *VC) enterHeld(fr *Frame, path string, env *Env) {
 
 // verifyLemma generates the single obligation of a lemma.
 func (p *Prog) verifyLemma(l *LemmaSpec) *FuncResult {
-	vc := newVC(p, "lemma "+l.Name)
-	res := &FuncResult{Name: "lemma " + l.Name, VC: vc}
+	vc := newVC(p, "lemma:"+l.Name)
+	res := &FuncResult{Name: "lemma:" + l.Name, VC: vc}
 	defer func() {
 		if r := recover(); r != nil {
 			if ee, ok := r.(evalError); ok {
@@ -502,4 +505,14 @@ func (p *Prog) relPos0(ps token.Position) string {
 		f = rel
 	}
 	return fmt.Sprintf("%s:%d", f, ps.Line)
+}
+
+// nameSig returns the signature whose parameter and result NAMES specs use:
+// instances of generic functions may lose the source names, their origin
+// keeps them.
+func nameSig(fn *ssa.Function) *types.Signature {
+	if o := fn.Origin(); o != nil && o.Signature.Results().Len() == fn.Signature.Results().Len() {
+		return o.Signature
+	}
+	return fn.Signature
 }
